@@ -1070,6 +1070,8 @@ pub fn run_c16(ctx: &RunCtx) -> Outcome {
     let (enumerated, prods) = wild_spaces(ctx);
     let mut grp_cfg = gen::common_cfg();
     grp_cfg.leaves.truncate(6);
+    // a group under {0} still counts as a group
+    grp_cfg.unary.push(|c| if c.repeatable() { Some(Repeat(Box::new(c), 0, Some(0), crate::ast::Q::Greedy)) } else { None });
     let plain: Vec<Node> = space(&grp_cfg, if ctx.quick() { 4 } else { 5 }, false).into_iter().filter(|n| n.n_groups() >= 1).collect();
     let enumerated: Vec<Node> = enumerated.into_iter().filter(|n| n.n_groups() >= 1).collect();
     let prods: Vec<Node> = prods.into_iter().filter(|n| n.n_groups() >= 1).collect();
